@@ -154,6 +154,13 @@ class Prop:
             for note in [spec('// note\n{\n  "a": 1\n}'), spec('/* header */ 42')]:
                 for ops in ['c0 c1 a0 e0 o0 u0'.split(), 'u0 u1 a0 c0 o0 e0'.split()]:       # u: loaded, not yet compiled
                     cs.append(Case('hist %s ; %s ;; %s' % (sp1, note, ' '.join(ops)), 'history-then-note', meta=([sp1, note], ops)))
+        # a result far larger than the initial capacity of the pooled buffers (what a pool does with a grown buffer), then small ones
+        big = spec('[\n' + ',\n'.join(['  1234567'] * 12000) + '\n]')
+        bigo = spec('{\n' + ',\n'.join('  "key%05d": "%s"' % (i, 'v' * 40) for i in range(1500)) + '\n}')
+        for b in (big, bigo):
+            for small in [spec('{"a":[1,2],"b":{"c":"d"}}'), spec('[1,2]'), spec('@t', {'@t': '{"x": 1}'})]:
+                for ops in ['e0 e1 o1 e1', 'o0 o1 e1 o1', 'e0 o0 e1 o1 a1 c1', 'e1 e0 e1 o0 o1']:
+                    cs.append(Case('hist %s ; %s ;; %s' % (b, small, ops), 'history-after-a-large-result', meta=([b, small], ops.split())))
         cs += late_cases(rng, 300 if tier == 'quick' else 3000)
         return cs
 
